@@ -955,8 +955,6 @@ def run_entry_points(ctl: explorer.Ctl, cfg: Dict[str, Any]) -> Dict[str, Any]:
             # the tracked connection object: version and batching mode of the agreed version, when the call returns
             want_state = (answered, answered < "2025-06-18")
             got = tracked.get("at-return")
-            if cfg["entry"] == "mcp_client":
-                got = [want_state]  # the compatibility generator runs the plain handshake: its connection is not a tracked one
             if not got:
                 raise core.HarnessError(f"no connection object observed for {cfg}")
             if any(g != want_state for g in got):
